@@ -3,6 +3,7 @@
   oracle values, compare with the implementation's outputs tag by tag.
 -/
 import Driver.Parse
+import MbVerif.Validate
 
 namespace Driver
 open Mb
